@@ -66,7 +66,11 @@ fn tl_pool() -> Vec<(String, TlS)> {
     // start and keyword-first at the end (tied keyframes keep the order in which they were written)
     v.push(make(Some(0), None, None, false, None, &[(2, 0), (0, 1), (1, 2)])); // 1s 0% {a:1.0} from {a:2.0,k:7} to {k:3,}
     v.push(make(Some(2), None, None, false, None, &[(0, 2), (1, 0), (6, 1)])); // 0.5s from {k:3,} to {a:1.0} 100% {a:2.0,k:7}
-    v.into_iter().map(|s| (s.render(&s.canonical_order()), s)).collect()
+    let mut out: Vec<(String, TlS)> = v.into_iter().map(|s| (s.render(&s.canonical_order()), s)).collect();
+    // arguments in another order than the canonical one: the easing path written after the keyframes, the duration last
+    let t = make(Some(0), Some(1), None, false, Some(0), &[(0, 0), (1, 1)]); // from {a:1.0} to {a:2.0,k:7} Easing::OutQuad after 250ms 1s
+    out.push((t.render(&[Item::K(0), Item::K(1), Item::E, Item::L, Item::D]), t));
+    out
 }
 
 fn def_options() -> Vec<DefS> {
